@@ -28,7 +28,7 @@ def generate(rng, tier):
         # inverse field scaling
         q = r.choice([1.0, 2.0, r.logu(1e-3, 1e3), r.logu(1e-3, 1e3)]); d = r.choice([1.0, 0.5, 2.0, r.logu(1e-2, 1e2), r.logu(1e-2, 1e2)]); s = r.choice([2.0, 0.5, 10.0, r.logu(1e-3, 1e3), r.logu(1e-3, 1e3)]); pw = r.choice([1.0, 2.0, 3.0, 0.5, 1.5, 2.5, 0.25, r.uniform(0.1, 3.5),
                                                                                              fb.nxt(float(r.choice([1, 2, 3])), r.choice([-2, -1, 1, 2])), float(r.choice([1, 2, 3])) + r.choice([-1e-11, 1e-11, -5e-11, 9e-11])])   # the property says q/r^n for real n: non-integer powers included
-        a = canon_angle(P, r, False)
+        a = canon_angle(P, r, r.chance(0.25))
         ch = P.add('GNewBlade', P.f(q), P.u(r.choice([0, 4, 8, 1000])), P.f(0.0), P.f(1.0)); chn = P.add('GNewBlade', P.f(q), P.u(r.choice([2, 6, 10, 1002])), P.f(0.0), P.f(1.0))
         kc = P.add('GScalar', P.f(r.logu(1e-3, 1e3))); pwr = P.add('GScalar', P.f(pw))
         d1 = P.add('GNewAngle', P.f(d), a); d2 = P.add('GNewAngle', P.f(d * s), a)
@@ -66,7 +66,7 @@ def generate(rng, tier):
         # activations, propagate, disperse
         for kind in range(4):
             preds.append(('activate_ref', [g, ['#', kind], P.add('TActivate', kind, g)]))
-        t, x, vel, k, w = [P.add('GNewAngle', P.f(r.choice([1.0, 2.0, 0.5, r.logu(1e-3, 1e3), r.logu(1e-3, 1e3), r.logu(1e-3, 1e3)])), canon_angle(P, r, False)) for _ in range(5)]
+        t, x, vel, k, w = [P.add('GNewAngle', P.f(r.choice([1.0, 2.0, 0.5, 0.0, r.logu(1e-3, 1e3), r.logu(1e-3, 1e3), r.logu(1e-3, 1e3)])), canon_angle(P, r, r.chance(0.25))) for _ in range(5)]
         preds.append(('mag_bits_equal', [g, P.add('TPropagate', g, t, x, vel)]))
         preds.append(('mag_is_one', [P.add('TDisperse', x, t, k, w)]))
         cases.append(Case(P, preds, 'laws'))
